@@ -1594,6 +1594,12 @@ func c26(c *Ctx) {
 	if workers > 16 {
 		workers = 16
 	}
+	if c.Shards > 1 {
+		// the shards run side by side: share the cores
+		if workers = workers / c.Shards; workers < 2 {
+			workers = 2
+		}
+	}
 
 	var cases []*c26Case
 	seen := map[string]bool{}
@@ -1615,6 +1621,37 @@ func c26(c *Ctx) {
 		skWalk(prog, func(s *skStmt) {
 			if s.C.K == "fn" && (s.C.Body.Neg || s.C.Body.C.K != "block") {
 				cs.racy = true
+			}
+			// `continue` inside the condition list of while/until: bash's behaviour (the condition
+			// "succeeds", pending `continuing` count) is not modelled by BashSem; such programs are
+			// outside the supported fragment anyway (no break/continue in conditions) and are kept
+			// out of the BashSem-vs-bash validation.
+			if s.C.K == "while" {
+				skWalk(s.C.P, func(t *skStmt) {
+					if t.C.K == "cont" {
+						cs.racy = true
+					}
+				})
+			}
+			// an ERR trap set inside a negated command: bash runs it for failures inside `! ( … )`
+			// although it ignores -e there; BashSem uses one "ignored" notion for both.  ERR traps
+			// are outside the theorem; these programs are kept out of the BashSem validation.
+			// an EXIT trap set inside a pipeline stage: whether bash 5.2 runs it depends on whether the
+			// stage got a process of its own (last stage of a pipeline that ends a subshell …); not
+			// modelled, unsupported anyway (finding C26-exit-trap-subshell covers the interpreter side)
+			if s.C.K == "pipe" {
+				skWalk([]*skStmt{s.C.X, s.C.Y}, func(t *skStmt) {
+					if t.C.K == "trapexit" && len(t.C.P) > 0 {
+						cs.racy = true
+					}
+				})
+			}
+			if s.Neg {
+				skWalk([]*skStmt{{C: s.C}}, func(t *skStmt) {
+					if t.C.K == "traperr" && len(t.C.P) > 0 {
+						cs.racy = true
+					}
+				})
 			}
 		})
 		nontrivial := false
@@ -1733,6 +1770,11 @@ func c26(c *Ctx) {
 	for j, i := range bashIdx {
 		cs, sh := cases[i], bres[j]
 		nBash++
+		if sh.Err != "" || sh.Status < 0 {
+			// bash could not be started (fork/exec failure on an overloaded machine): no oracle
+			c.Hist["bash-unavailable"]++
+			continue
+		}
 		if sh.TimedOut {
 			c.Hist["bash-timeout"]++
 			if l, _ := c.Extra["bash_timeout_samples"].([]string); len(l) < 5 {
@@ -2088,7 +2130,7 @@ func c26Mutations(c *Ctx, _ string, workers int) {
 		// (TestRunnerRunConfirm needs bash 5.3), not mutations
 		r.in0, r.inErr0 = c26RunInterpErr(c, seeds[pick[i].seed].in)
 		r.sh0 = runShell(c, "bash", c26BashPrefix+seeds[pick[i].seed].in)
-		if r.in0.TimedOut || r.sh0.TimedOut || !c26Agree(r.in0, r.inErr0, r.sh0) {
+		if r.in0.TimedOut || r.sh0.TimedOut || r.sh0.Err != "" || r.sh0.Status < 0 || !c26Agree(r.in0, r.inErr0, r.sh0) {
 			r.origDiffers = true
 			return r
 		}
@@ -2106,7 +2148,7 @@ func c26Mutations(c *Ctx, _ string, workers int) {
 			continue
 		}
 		c.Case("mut:"+m.text, true, "repo-mutant")
-		if r.sh.TimedOut || r.in.TimedOut {
+		if r.sh.TimedOut || r.in.TimedOut || r.sh.Err != "" || r.sh.Status < 0 {
 			c.Hist["repo-mutant-timeout"]++
 			continue
 		}
